@@ -169,7 +169,7 @@ func (e CountElem) Encode() ([]byte, error) {
 	return b[:], nil
 }
 func (e *CountElem) Decode(b []byte) (int, error) {
-	elemDecodes++
+	countDecode(&elemDecodes)
 	if len(b) < 2 {
 		return 0, errShortElem
 	}
